@@ -124,6 +124,13 @@ def check(col: Collector, tier: str):
                 why += f" (writers now: {writers})"
             col.add("C07.R3", cell, "allow-listed-cell-still-harmless", ok, why, ws[0].func.loc)
             continue
+        # a counter of the name generator under another name or shape (one per base name, say): a module-level cell of cpp_vars that only
+        # unique_name writes and reads can influence nothing but the numbering of generated names, which the property factors out
+        if cell.startswith("G:func_adl_xAOD.common.cpp_vars.") and writers == ["unique_name"] \
+                and _referenced_only_by(repo, cell.rpartition(".")[2], {"unique_name"}):
+            col.add("C07.R3", cell, "allow-listed-cell-still-harmless", True,
+                    "written and read only by unique_name: it can only change the numbering of generated names", ws[0].func.loc)
+            continue
         if cell.startswith("D:"):
             col.add("C07.R3", cell, "default-argument-mutated", False,
                     f"the mutable default argument object is mutated in place by {writers}: it is shared by every call and "
